@@ -242,6 +242,9 @@ Definition bp_skel_parseBlock : list bytes := [
   b#"ret err";
   b#"tok[parser.tokenIndex]";
   b#"adv ++";
+  b#"range parser.openBlocks";
+  b#"if open == blockName";
+  b#"ret err";
   b#"if parser.tokenIndex >= len(parser.tokens) || !isBlockEndToken(parser.tokens[parser.tokenIndex].Type)";
   b#"tok[parser.tokenIndex]";
   b#"ret err";
